@@ -18,11 +18,21 @@ LEVEL_TEXT = ("Theorems in Coq, for every cluster, label assignment, policy list
               "directly on the implementation's outputs. The shard-creation glue is driven through the real coordinator.NewCoordinator "
               "(initial assignment, start-up on a stored status, ConfigChanged via the config notification channel, restart with a "
               "changed config, balancer swaps that follow): after every step every ensemble of the stored cluster status is judged "
-              "(status:* signatures) and every created-or-refused namespace must be in the model's admissible set (kind place).")
+              "(status:* signatures) and every created-or-refused namespace must be in the model's admissible set (kind place). "
+              "The balancer as a concurrent system: several rounds composed through the round barrier keep the same per-shard "
+              "guarantees (c19_rounds_with_barrier; without the barrier refuted, c19_rounds_without_barrier_refuted); the harness "
+              "runs real rebalance rounds against a harness-owned action worker (FIFO, one action at a time through the real "
+              "swapNodeInMetadata, one slow swap with the others queued behind it) and judges the stored status after every "
+              "application (kind pipe; every application is also a swapnode case for the model).")
 LEVEL_NOTE = ("Trusted: Coq kernel, extraction (ExtrOcamlBasic), the Go harness and its canonicalisation. Modelled, not verified: "
               "the float load-ratio arithmetic of DefaultShardsRank / balanceHighestNode (the node ranking and the list of (shard, from) "
               "requests of a round are inputs of the model, observed from the real run); gods linkedhashset as an insertion-ordered set "
               "whose Difference/Intersection order is unspecified; election/catch-up after swapNode's metadata step. "
+              "The queue between proposal and application (balancer action channel, coordinator action worker) is modelled by its "
+              "guarantee only: round_loop computes every proposal of a round from the snapshot and rounds_from composes rounds "
+              "through the barrier (next snapshot = metadata left by the previous round); that the real balancer keeps this barrier "
+              "is checked by spec verdicts of the pipe leg (status:ensemble-violates-strict-anti-affinity, "
+              "swap:two-members-replaced-from-one-snapshot), not by a model of goroutines. "
               "c19_round assumes the live shard metadata equals the status snapshot at the start of the round (c19_round_any_actions "
               "covers stale snapshots for distinctness and size). Not claimed: liveness of the balancer (balanceHighestNode retries a "
               "failing swapShard forever; seen in generated rounds, the harness breaks the loop).")
@@ -33,6 +43,8 @@ ASSUMES = ["server identifiers are non-empty strings (the chain treats \"\" as '
 RULE = ("clusters of 3-9 servers (ids 1..12, random insertion order), 0-3 labels with 1-4 values, missing labels / missing metadata, "
         "rf 0-5, 0-3 rules of 0-2 labels (Strict/Relaxed/unknown mode), ranking full/partial/empty/nil, ServerIdx small/large/nil status; "
         "swap: existing placements incl. servers removed from the cluster; round: 2-7 live + 0-3 removed servers, 1-10 shards; "
+        "pipe: skewed-load clusters (old servers loaded, new empty servers sharing a zone, strict zone namespace + rf-1 namespace) and "
+        "round-leg clusters with removed servers, 2-3 rounds, slow swap at position 0 (75%) or 1-2, hold 30 ms; "
         "place: real coordinator on 2-6 servers, 0-2 labels (one value per server / about as many values as servers / 1-3 values), "
         "namespaces with rf <, =, > cluster size and Strict/Relaxed/two-label/two-rule policies, steps I/E/C/R with servers added or "
         "removed and labels changed; "
